@@ -144,8 +144,8 @@ def ros_latch():
 # What one second of evaluation could possibly produce (bits of one result). Deliberately generous (4x the
 # engine's own constant at the time of writing): the clause is "bounded by the timeout", not "by my constant".
 ALLOWED_BITS_PER_SECOND = 1 << 22
-SHAPES = ["pow", "pow_tower", "factorial", "str_repeat", "list_repeat", "int_mult", "sum_small"]
-GROWTH_SHAPES = ("pow", "pow_tower", "factorial", "str_repeat", "list_repeat", "int_mult")
+SHAPES = ["pow", "pow_tower", "factorial", "str_repeat", "list_repeat", "rep_str", "rep_tuple", "int_mult", "sum_small"]
+GROWTH_SHAPES = ("pow", "pow_tower", "factorial", "str_repeat", "list_repeat", "rep_str", "rep_tuple", "int_mult")
 
 
 class Big:
@@ -169,7 +169,7 @@ def pow_table(b, d, hi=40):
 
 def expr_text(kind, a, b, d, n):
     return {"pow": f"({a})**{n}", "pow_tower": f"{a}**{b}**{d}", "factorial": f"factorial({n})", "str_repeat": f"'ab'*{n}",
-            "list_repeat": f"[0, 1]*{n}", "int_mult": f"(2**{n})*(2**{n})*({a})", "sum_small": f"{a}+{b}+{d}"}[kind]
+            "list_repeat": f"[0, 1]*{n}", "rep_str": f"{n}*'ab'", "rep_tuple": f"{n}*(0, 1)", "int_mult": f"(2**{n})*(2**{n})*({a})", "sum_small": f"{a}+{b}+{d}"}[kind]
 
 
 def resource():
@@ -275,6 +275,10 @@ def resource():
             tree = ast.BinOp(K("ab"), ast.Mult(), K(n))
         elif kind == "list_repeat":
             tree = ast.BinOp(ast.List([K(0), K(1)], ast.Load()), ast.Mult(), K(n))
+        elif kind == "rep_str":                                           # count first
+            tree = ast.BinOp(K(n), ast.Mult(), K("ab"))
+        elif kind == "rep_tuple":
+            tree = ast.BinOp(K(n), ast.Mult(), ast.Tuple([K(0), K(1)], ast.Load()))
         elif kind == "int_mult":
             p2 = ast.BinOp(K(2), ast.Pow(), K(n))
             tree = ast.BinOp(ast.BinOp(p2, ast.Mult(), p2), ast.Mult(), K(a))
